@@ -3,7 +3,7 @@
 # Confirms a sub-agent's change in its scratch worktree: demo passes on the clean tree, fails with the patch, pinned suite unchanged,
 # then runs the named checks (quick) against the patched worktree and records everything under seeded/<seeded-name>/.
 HERE="$(cd "$(dirname "${BASH_SOURCE[0]}")/.." && pwd)"
-wt=/tmp/seed/$1; var=$2; name=$3; prop=$4; checks="$5"
+wt=${SEEDBASE:-/tmp/seed}/$1; var=$2; name=$3; prop=$4; checks="$5"
 src=$wt/out/$var
 dst=$HERE/seeded/$name
 mkdir -p $dst
